@@ -10,8 +10,8 @@ package main
 //               parked (synctest.Wait) and ConnsCount / IdleConnsCount / the wait queue / the results of the actors
 //               that returned are observed and compared with the Lean model stepping on the same (resolved) ops.
 // kind "queue": the wantConnQueue alone against the FIFO list (spec) and the two-stage model.
-// kind "chaos": concurrent actors with random virtual delays (the scheduler picks the interleaving, so the
-//               delivery-vs-timeout races happen); property monitor only.
+// kind "chaos": concurrent actors with random virtual delays (the scheduler picks the interleaving); monitor only.
+// kind "race":  the delivery-vs-timeout race on purpose (release at the instant the waiter's timer fires); monitor only.
 
 import (
 	"errors"
@@ -76,6 +76,16 @@ type c18World struct {
 	ops     [][]byte
 	parked  bool
 	full    bool
+}
+
+// recoverActor turns a panic inside fasthttp on an actor's goroutine into a violation instead of a crash.
+func (w *c18World) recoverActor(a *c18Actor) {
+	if e := recover(); e != nil {
+		w.mu.Lock()
+		w.violate("impl-panic", fmt.Sprintf("actor %d: panic inside fasthttp: %v", a.id, e))
+		a.done, a.reported = true, true
+		w.mu.Unlock()
+	}
 }
 
 func (w *c18World) violate(key, detail string) {
@@ -200,6 +210,7 @@ func (w *c18World) apply(code byte, n int) bool {
 		w.ops = append(w.ops, []byte{code, byte(flag)})
 		if a.isReq {
 			go func() {
+				defer w.recoverActor(a)
 				req := fasthttp.AcquireRequest()
 				resp := fasthttp.AcquireResponse()
 				req.SetRequestURI(fmt.Sprintf("http://pool.test/?a=%d", a.id))
@@ -219,6 +230,7 @@ func (w *c18World) apply(code byte, n int) bool {
 				to = c18Short
 			}
 			go func() {
+				defer w.recoverActor(a)
 				cc, err := hc.AcquireConn(to, false)
 				w.mu.Lock()
 				a.cc, a.err, a.done = cc, err, true
@@ -351,6 +363,11 @@ func (w *c18World) observe() {
 	if cc != live {
 		w.violate("count-mismatch", fmt.Sprintf("ConnsCount() = %d but %d connections are open and %d are being dialled", cc, len(w.open), dl))
 	}
+	// every open connection is in exactly one place: idle, held by an actor, or carrying a request at the server
+	if idle := hc.IdleConnsCount(); idle+len(w.held)+len(w.busy) != len(w.open) {
+		w.violate("double-lend", fmt.Sprintf("%d idle + %d held by actors + %d with a request at the server != %d open connections (a connection is in two places, or lost)",
+			idle, len(w.held), len(w.busy), len(w.open)))
+	}
 	if cc >= w.max {
 		w.full = true
 	}
@@ -371,6 +388,9 @@ func (w *c18World) allDone() bool {
 // teardown drives the pool to quiescence with ordinary ops (so the model follows), then checks ConnsCount.
 func (w *c18World) teardown() string {
 	for round := 0; round < 80; round++ {
+		if len(w.viol) > 0 {
+			return "z=0"
+		}
 		progress := false
 		for len(w.pendingDials()) > 0 {
 			w.apply('D', 0)
@@ -437,6 +457,10 @@ func c18Seq(a [][]byte) *Case {
 		w = newC18World(max, mode, fifo)
 		for i := 0; i+1 < len(a[1]); i += 2 {
 			w.apply(a[1][i], int(a[1][i+1]))
+			if len(w.viol) > 0 {
+				// the pool is inconsistent: going on may crash inside fasthttp (e.g. a connection record released twice)
+				return
+			}
 		}
 		z = w.teardown()
 	})
@@ -448,10 +472,14 @@ func c18Seq(a [][]byte) *Case {
 	}
 	line := Line("hostpool", append([][]byte{{byte(max), byte(mode), ff}}, w.ops...)...)
 	tags := []string{"seq", fmt.Sprintf("mode%d", mode), fmt.Sprintf("max%d", max)}
-	return &Case{Lines: []string{line}, Impl: impl, Nontrivial: w.parked || (w.full && len(w.actors) > max), Tags: tags,
+	nontrivial := w.parked || (w.full && len(w.actors) > max)
+	// keep only what the verdict needs (the world with its connections and goroutine stacks must be collectable)
+	viol, ops := w.viol, w.ops
+	w = nil
+	return &Case{Lines: []string{line}, Impl: impl, Nontrivial: nontrivial, Tags: tags,
 		Judge: func(r []string) Verdict {
-			if len(w.viol) > 0 {
-				return Verdict{VSpec, w.viol[0][0], w.viol[0][1] + " | trace: " + impl}
+			if len(viol) > 0 {
+				return Verdict{VSpec, viol[0][0], viol[0][1] + " | trace: " + impl}
 			}
 			if bub != "" {
 				return Verdict{VSpec, "goroutine-stuck", bub + " | trace: " + impl}
@@ -468,8 +496,8 @@ func c18Seq(a [][]byte) *Case {
 							m = mo[i]
 						}
 						op := "final"
-						if i < len(w.ops) {
-							op = fmt.Sprintf("%c%d", w.ops[i][0], w.ops[i][1])
+						if i < len(ops) {
+							op = fmt.Sprintf("%c%d", ops[i][0], ops[i][1])
 						}
 						return Verdict{VCorr, "hostpool-step", fmt.Sprintf("after op %d (%s): impl %q model %q | impl trace: %s", i, op, obs[i], m, impl)}
 					}
@@ -611,7 +639,7 @@ func c18Chaos(a [][]byte) *Case {
 	acquires, waits := 0, 0
 	bub := inBubble(func() {
 		rootRand := NewRand(seed)
-		hc := &fasthttp.HostClient{Addr: "pool.test:80", MaxConns: max, MaxIdleConnDuration: 1000 * time.Hour}
+		hc := &fasthttp.HostClient{Addr: "pool.test:80", MaxConns: max, MaxIdleConnDuration: time.Hour}
 		hc.ConnPoolStrategy = fasthttp.LIFO
 		if fifo {
 			hc.ConnPoolStrategy = fasthttp.FIFO
@@ -651,6 +679,11 @@ func c18Chaos(a [][]byte) *Case {
 			wg.Add(1)
 			go func() {
 				defer wg.Done()
+				defer func() {
+					if e := recover(); e != nil {
+						violate("impl-panic", fmt.Sprintf("actor %d: panic inside fasthttp: %v", id, e))
+					}
+				}()
 				rounds := 2 + r.Intn(4)
 				for k := 0; k < rounds; k++ {
 					time.Sleep(time.Duration(r.Intn(6000)) * time.Millisecond)
@@ -738,7 +771,7 @@ func c18Chaos(a [][]byte) *Case {
 		if hc.ConnsCount() != 0 {
 			violate("nonzero-at-quiescence", fmt.Sprintf("ConnsCount() = %d after CloseIdleConnections with no request pending", hc.ConnsCount()))
 		}
-		advance(3000 * time.Hour) // cleaner exits
+		advance(3 * time.Hour) // cleaner exits
 	})
 	impl := fmt.Sprintf("actors=%d acquires=%d", nActors, acquires)
 	return &Case{Impl: impl, Nontrivial: acquires > max, Tags: []string{"chaos"},
@@ -753,13 +786,124 @@ func c18Chaos(a [][]byte) *Case {
 		}}
 }
 
+// c18Race: the delivery-vs-timeout race on purpose. MaxConns 1: a holder releases (or closes) its connection at the
+// very virtual instant the waiter's timer fires, so the scheduler decides whether tryDeliver or the timer branch wins
+// and whether cancel has to take a raced-in delivery back. Monitor only.
+func c18Race(a [][]byte) *Case {
+	if len(a) < 1 || len(a[0]) < 2 {
+		return nil
+	}
+	mode := int(a[0][0])%2 + 1
+	rounds := 6 + int(a[0][1])%10
+	var viol [][2]string
+	delivered, timedOut := 0, 0
+	bub := inBubble(func() {
+		var mu sync.Mutex
+		open := 0
+		hc := &fasthttp.HostClient{Addr: "pool.test:80", MaxConns: 1, MaxIdleConnDuration: time.Hour}
+		if mode == 1 {
+			hc.MaxConnWaitTimeout = c18Long
+		} else {
+			hc.MaxConnWaitTimeout = c18Short
+		}
+		n := 0
+		hc.Dial = func(string) (net.Conn, error) {
+			mu.Lock()
+			defer mu.Unlock()
+			n++
+			open++
+			c := newMemConn(n)
+			c.onCliClose = func(*memConn) { mu.Lock(); open--; mu.Unlock() }
+			return c, nil
+		}
+		for i := 0; i < rounds && len(viol) == 0; i++ {
+			cc, err := hc.AcquireConn(time.Second, false)
+			if err != nil {
+				viol = append(viol, [2]string{"count-mismatch", fmt.Sprintf("round %d: the pool is empty (nothing held, nothing dialling) but AcquireConn fails with %v; ConnsCount() = %d, IdleConnsCount() = %d", i, err, hc.ConnsCount(), hc.IdleConnsCount())})
+				break
+			}
+			heldConn := cc.Conn() // (the record cc itself goes back to fasthttp's pool on CloseConn)
+			type res struct {
+				cc  *fasthttp.VerifClientConn
+				err error
+			}
+			rc := make(chan res, 1)
+			go func() {
+				c2, e := hc.AcquireConn(c18Short, false)
+				rc <- res{c2, e}
+			}()
+			settle()
+			closeIt := (int(a[0][1])+i)%3 == 0
+			go func() {
+				time.Sleep(c18Short) // wakes at the instant the waiter's timer fires
+				if closeIt {
+					hc.CloseConn(cc)
+				} else {
+					hc.ReleaseConn(cc)
+				}
+			}()
+			advance(c18Short + time.Second)
+			var r res
+			select {
+			case r = <-rc:
+			default:
+				viol = append(viol, [2]string{"waiter-no-answer", fmt.Sprintf("round %d: the waiter has not returned 1s after its timeout", i)})
+				continue
+			}
+			switch {
+			case r.cc != nil && r.err != nil:
+				viol = append(viol, [2]string{"waiter-both", fmt.Sprintf("round %d: connection and %v", i, r.err)})
+			case r.cc != nil:
+				delivered++
+				if mc, _ := r.cc.Conn().(*memConn); mc == nil || mc.isClosed() || (closeIt && r.cc.Conn() == heldConn) {
+					viol = append(viol, [2]string{"double-lend", fmt.Sprintf("round %d: the waiter was lent a closed connection", i)})
+				}
+				hc.ReleaseConn(r.cc)
+			default:
+				timedOut++
+				if cls := c18ErrClass(r.err); cls != "nofree" && cls != "timeout" {
+					viol = append(viol, [2]string{"waiter-bad-error", fmt.Sprintf("round %d: %v", i, r.err)})
+				}
+			}
+			// a dialConnFor spawned by CloseConn may still deliver to nobody and release; let it finish
+			settle()
+			mu.Lock()
+			o := open
+			mu.Unlock()
+			if cnt := hc.ConnsCount(); cnt != o || hc.IdleConnsCount() != o || o > 1 {
+				viol = append(viol, [2]string{"count-mismatch", fmt.Sprintf("round %d (holder %s at the waiter's timeout): ConnsCount() = %d, IdleConnsCount() = %d, connections open = %d, nothing held", i, map[bool]string{true: "closed", false: "released"}[closeIt], cnt, hc.IdleConnsCount(), o)})
+			}
+		}
+		hc.CloseIdleConnections()
+		settle()
+		if len(viol) == 0 && hc.ConnsCount() != 0 {
+			viol = append(viol, [2]string{"nonzero-at-quiescence", fmt.Sprintf("ConnsCount() = %d after CloseIdleConnections", hc.ConnsCount())})
+		}
+		if len(viol) == 0 {
+			advance(3 * time.Hour)
+		}
+	})
+	impl := fmt.Sprintf("rounds=%d delivered=%d timedout=%d", rounds, delivered, timedOut)
+	return &Case{Impl: impl, Nontrivial: true, Tags: []string{"race"},
+		Judge: func([]string) Verdict {
+			if len(viol) > 0 {
+				return Verdict{VSpec, viol[0][0], viol[0][1] + " | " + impl}
+			}
+			if bub != "" {
+				return Verdict{VSpec, "goroutine-stuck", bub + " | " + impl}
+			}
+			return Ok()
+		}}
+}
+
 func init() {
 	Register(&Prop{
 		ID: "C18",
 		Rule: "seq: random sequences of 4..30 gated ops (AcquireConn / request through Do / dial ok / dial fail / ReleaseConn / CloseConn / server answers keep-alive|close / " +
 			"short timeout passes / MaxIdleConnDuration passes / CloseIdleConnections) on a real HostClient in virtual time, MaxConns 1..3, without / long / short MaxConnWaitTimeout, LIFO/FIFO, " +
-			"followed by a teardown that closes everything; thorough adds all sequences of <=4 ops over a 10-op alphabet for MaxConns 1..2 x 3 wait modes; " +
+			"followed by a teardown that closes everything; thorough adds all sequences of <=4 ops (<=5 for MaxConns 1 with a long MaxConnWaitTimeout) over a 10-op alphabet for MaxConns 1..2 x 3 wait modes; " +
 			"queue: random push/pop/clearFront/pop-until-waiting sequences on wantConnQueue; chaos: 4..8 concurrent actors with random delays and dial faults; " +
+			"race: MaxConns 1, 6..15 rounds of a holder releasing/closing its connection at the very instant the waiter's timer fires (the scheduler decides delivery vs timeout); " +
 			"non-trivial = a waiter parked or the pool was full with more actors than MaxConns / >=3 queue observations / more acquires than MaxConns; distinct = distinct input",
 		NoShrink:   false,
 		Exhaustive: func(t string) bool { return false },
@@ -776,6 +920,8 @@ func init() {
 				return c18Queue(a)
 			case "chaos":
 				return c18Chaos(a)
+			case "race":
+				return c18Race(a)
 			}
 			return nil
 		},
@@ -798,21 +944,25 @@ func init() {
 			}
 			if tier == "thorough" {
 				alpha := [][2]byte{{'A', 0}, {'A', 1}, {'Q', 0}, {'D', 0}, {'F', 0}, {'R', 0}, {'C', 0}, {'S', 0}, {'S', 1}, {'T', 0}}
-				var rec func(prefix []byte, d int, cfg []byte)
-				rec = func(prefix []byte, d int, cfg []byte) {
+				var rec func(prefix []byte, d, depth int, cfg []byte)
+				rec = func(prefix []byte, d, depth int, cfg []byte) {
 					if d > 0 {
 						emit("seq", cfg, append([]byte(nil), prefix...))
 					}
-					if d == 4 {
+					if d == depth {
 						return
 					}
 					for _, s := range alpha {
-						rec(append(append([]byte(nil), prefix...), s[0], s[1]), d+1, cfg)
+						rec(append(append([]byte(nil), prefix...), s[0], s[1]), d+1, depth, cfg)
 					}
 				}
 				for max := 0; max < 2; max++ {
 					for mode := 0; mode < 3; mode++ {
-						rec(nil, 0, []byte{byte(max), byte(mode), 0})
+						depth := 4
+						if max == 0 && mode == 1 {
+							depth = 5 // MaxConns 1 with a long MaxConnWaitTimeout and per-request timeouts: all sequences of <= 5 ops
+						}
+						rec(nil, 0, depth, []byte{byte(max), byte(mode), 0})
 					}
 				}
 			}
@@ -827,6 +977,9 @@ func init() {
 			}
 			for i := 0; i < nChaos; i++ {
 				emit("chaos", []byte{byte(r.Intn(3)), byte(r.Intn(2)), byte(r.Intn(2))}, r.Bytes(4, nil))
+			}
+			for i := 0; i < 2*nChaos; i++ {
+				emit("race", []byte{byte(r.Intn(2)), byte(r.Intn(256)), byte(i), byte(i >> 8)})
 			}
 		},
 	})
